@@ -16,7 +16,7 @@ cells.
 import ast
 
 from ..core.cfg import cfg_of
-from ..core.defuse import rd_of
+from ..core.defuse import rd_of, Expander
 from ..core.loader import unparse, AnalysisError
 from ..core.slicing import backward_slice
 from ..rules import axes as AX
@@ -48,6 +48,10 @@ EXPLANATION += (
     "values by pointer scatter (R-IDIOM/pointer-scatter), so a cell's "
     'row does not depend on whether an earlier cell of the chunk is '
     'empty.'
+)
+
+EXPLANATION += (
+    ' Round 6: between chunk arrival and kernel the query matrix is never reduced along the cell axis (R-AXIS/no-reduction-over-cells).'
 )
 
 RULE_TEXT = (
@@ -86,6 +90,7 @@ def check(ctx):
     # earlier cell of the chunk is empty)
     from .C05 import check_scatter
     check_scatter(ctx)
+    check_no_reduction_over_cells(ctx)
 
 
 def check_cell_selection(ctx):
@@ -150,3 +155,97 @@ def check_per_cell_loop(ctx):
            'each cell\'s runner-up tuples read that cell\'s own row of the '
            'ranking, votes and correlations' if ok else
            'the runner-up records mix rows of different cells')
+
+
+GLUE = (
+    'type_assignment.matching:assemble_query_data',
+    'type_assignment.election:run_type_assignment',
+    'type_assignment.election:_run_type_assignment',
+    'type_assignment.election:choose_node',
+    'type_assignment.election:_run_type_assignment_on_h5ad_worker',
+)
+_REDUCERS = {'all', 'any', 'sum', 'mean', 'max', 'min', 'std', 'var',
+             'median', 'prod', 'argmax', 'argmin', 'amax', 'amin',
+             'nanmax', 'nanmin', 'nansum', 'nanmean', 'ptp', 'unique',
+             'count_nonzero', 'isfinite_all'}
+
+
+def check_no_reduction_over_cells(ctx):
+    """between the arrival of a chunk and the numeric kernel the query
+    matrix (cells x genes, the `.data` of a CellByGeneMatrix built from
+    the query) is only selected from -- rows by cell, columns by gene.
+    Anything that reduces it along the cell axis (axis 0, or no axis at
+    all) and feeds the result back makes a cell's markers, and so its
+    mapping, depend on the other cells of its chunk.  Reductions along
+    axis 1 are per cell and are fine."""
+    db = ctx.db
+    rule = 'R-AXIS/no-reduction-over-cells'
+    ci = db.cls('cell_by_gene.cell_by_gene:CellByGeneMatrix')
+    fns = [db.fn(q) for q in GLUE if q in db.functions]
+    fns += [m for m in db.methods_of(ci)] if hasattr(db, 'methods_of') \
+        else [f for f in db.iter_functions()
+              if f.qual.startswith(ci.qual + '.')]
+    n_red = 0
+    for fi in fns:
+        ctx.touch(fi)
+        cfg = cfg_of(fi)
+        rd = rd_of(fi)
+        ex = Expander(fi)
+        for c in ast.walk(fi.node):
+            if not isinstance(c, ast.Call):
+                continue
+            f = c.func
+            nm = f.attr if isinstance(f, ast.Attribute) else None
+            if nm not in _REDUCERS:
+                continue
+            # operand: receiver of a method, first argument of np.<f>
+            if isinstance(f.value, ast.Name) and f.value.id in (
+                    'np', 'numpy'):
+                if not c.args:
+                    continue
+                operand = c.args[0]
+                axis = [kw.value for kw in c.keywords if kw.arg == 'axis']
+                if not axis and len(c.args) > 1:
+                    axis = [c.args[1]]
+            else:
+                operand = f.value
+                axis = [kw.value for kw in c.keywords if kw.arg == 'axis']
+                if not axis and c.args:
+                    axis = [c.args[0]]
+            ns = [x for x in cfg.node_of_expr(c) if x.id in rd.live]
+            if not ns:
+                continue
+            t = ex.expand(operand, ns[0].id)
+            if not _is_query_matrix(fi, t):
+                continue
+            n_red += 1
+            per_cell = bool(axis) and isinstance(
+                axis[0], ast.Constant) and axis[0].value in (1, -1)
+            ctx.ob(rule, f'{fi.qual}:{nm}#{n_red - 1}', fi.loc(c), per_cell,
+                   'reduced along the gene axis: one value per cell'
+                   if per_cell else
+                   f'`{unparse(c)[:60]}` reduces the query matrix along '
+                   'the cell axis: what it yields depends on every cell '
+                   'of the chunk, and so does whatever is derived from it '
+                   '(a cell is then mapped differently in different '
+                   'company)')
+    ctx.ok(rule + '/scan', 'glue', 'package',
+           f'{len(fns)} functions between chunk and kernel scanned, '
+           f'{n_red} reduction(s) of the query matrix', nontrivial=False)
+
+
+def _is_query_matrix(fi, t):
+    """the term is (derived by selection from) the `.data` of the query
+    CellByGeneMatrix: `<query-ish>.data`, `self.data` / `self._data`
+    inside the class, or the result of a method of such an object"""
+    from ..core import terms as T
+
+    def queryish(x):
+        if x[0] == 'param':
+            return 'query' in x[1] or x[1] == 'self'
+        return False
+    for x in T.subterms(t):
+        if x[0] == 'attr' and x[2] in ('data', '_data'):
+            if any(queryish(y) for y in T.subterms(x[1])) or queryish(x[1]):
+                return True
+    return False
